@@ -4,6 +4,8 @@ import (
 	"fmt"
 	"net/http"
 	"net/url"
+	"os"
+	"path/filepath"
 	"sort"
 	"strings"
 
@@ -11,6 +13,7 @@ import (
 	"github.com/ogen-go/ogen/gen"
 	"github.com/ogen-go/ogen/uri"
 
+	"verifharness/internal/gc"
 	"verifharness/internal/lp"
 )
 
@@ -616,6 +619,7 @@ func c06(r *lp.Run) {
 		}
 	}
 	c06Cookie(r, rng)
+	c06Generated(r)
 }
 
 func c06One(r *lp.Run, c pcfg, v pval, adm bool) {
@@ -771,4 +775,39 @@ func c06Cookie(r *lp.Run, rng *lp.Rand) {
 		}
 		r.Case("uncookie", lp.Hex(b), o, "cookie-unescape", strings.Contains(s, "%"))
 	}
+}
+
+// C. the generated glue around the codecs, for the wrapper kinds the uri tests above cannot see: every admitted
+// (location, style, explode) × {primitive, object} with `nullable: true` on the parameter schema, required and
+// optional, through a regenerated client and server (the value sits in a Nil… / OptNil… wrapper that the
+// encoder and decoder configuration has to look through)
+func c06Generated(r *lp.Run) {
+	scratch := os.Getenv("VERIF_SCRATCH")
+	if scratch == "" {
+		scratch = "/var/tmp"
+	}
+	mod, err := gc.NewModule(filepath.Join(scratch, fmt.Sprintf("gc-c06-%d", os.Getpid())))
+	if err != nil {
+		panic(err)
+	}
+	defer os.RemoveAll(mod.Dir)
+	ops := paramMatrixNullable("C06")
+	pkg, err := mod.Add("pmnl", []byte(paramMatrixDoc(ops)), gen.Options{})
+	if err != nil {
+		r.PropCheck()
+		r.Fail(lp.PropFail{Property: "C06", What: "the generator refuses the parameter matrix with nullable parameter schemas", Input: "nullable parameter matrix", Observed: err.Error(), Expected: "generated package"})
+		return
+	}
+	bin, err := mod.Build()
+	if err != nil {
+		r.PropCheck()
+		r.Fail(lp.PropFail{Property: "C02", What: "generated packages do not compile", Input: "nullable parameter matrix", Observed: err.Error(), Expected: "compiles"})
+		return
+	}
+	drv, err := gc.Start(bin)
+	if err != nil {
+		panic(err)
+	}
+	defer drv.Close()
+	c01RunMatrix(r, r.Rng.Fork(606), drv, pkg, ops, r.N(6, 30))
 }
